@@ -81,6 +81,47 @@ where
     if let Ok(p) = Pipeline::<A, _>::avx2() { check!("avx2/32", p.score(&pssm, &st32).unstripe().to_vec()); }
     check!("dispatch/32", Pipeline::<A, _>::dispatch().score(&pssm, &st32).unstripe().to_vec());
     for (nm, arm) in arms() { check!(nm, Pipeline::<A, Dispatch>::with_backend(arm.clone()).score(&pssm, &st32).unstripe().to_vec()); }
+    // single-position rescoring (ScoringMatrix::score_position) on sequences with NO / fewer / exactly / more look-ahead rows than the motif needs
+    if l >= m {
+        for hist in 0..4 {
+            let mut sq: StripedSequence<A, U32> = Pipeline::<A, _>::generic().stripe(&s[..]);
+            match hist { 1 => { if m > 2 { sq.configure_wrap(1 + rng.below(m - 2)); } } 2 => sq.configure(&pssm), 3 => sq.configure_wrap(m + 2), _ => {} }
+            *n += 1;
+            match catch_unwind(AssertUnwindSafe(|| (0..=l - m).map(|i| pssm.score_position(&sq, i)).collect::<Vec<f32>>())) {
+                Err(_) => fails.push(fail("pwm_score_position", format!("history {}: panic at {}", hist, panic_loc()), case.clone())),
+                Ok(v) => if let Some(i) = (0..v.len()).find(|&i| !feq(v[i], want[i])) { fails.push(fail("pwm_score_position", format!("history {} (wrap {}): position {} scores {} expected {}", hist, sq.wrap(), i, v[i], want[i]), case.clone())); }
+            }
+        }
+    }
+    // a CLONE of the configured sequence scores like the original; Vec::from(scores) is the same list as unstripe(), also when it is empty
+    check!("dispatch/32 clone", Pipeline::<A, _>::dispatch().score(&pssm, &st32.clone()).unstripe().to_vec());
+    check!("dispatch/32 Vec::from", Vec::<f32>::from(Pipeline::<A, _>::dispatch().score(&pssm, &st32)));
+    check!("generic/32 Vec::from", Vec::<f32>::from(Pipeline::<A, _>::generic().score(&pssm, &st32)));
+    // the result container: iteration (both directions), indexing, exact length, and the linear `Scores` view
+    {
+        *n += 1;
+        match catch_unwind(AssertUnwindSafe(|| {
+            let sc = Pipeline::<A, _>::dispatch().score(&pssm, &st32);
+            let fwd: Vec<f32> = sc.iter().cloned().collect();
+            let mut bwd: Vec<f32> = sc.iter().rev().cloned().collect(); bwd.reverse();
+            let idx: Vec<f32> = (0..want.len()).map(|i| sc[i]).collect();
+            let lin = sc.unstripe();
+            (fwd, bwd, idx, sc.iter().len(), sc.max_index(), lin.len(), lin.argmax(), lin.max())
+        })) {
+            Err(_) => fails.push(fail("scores_iter", format!("panic at {}", panic_loc()), case.clone())),
+            Ok((fwd, bwd, idx, ilen, mi, llen, lam, lmax)) => {
+                let same = |a: &Vec<f32>| a.len() == want.len() && (0..a.len()).all(|i| feq(a[i], want[i]));
+                let mut bad = Vec::new();
+                if !same(&fwd) { bad.push("iter()"); } if !same(&bwd) { bad.push("iter().rev()"); } if !same(&idx) { bad.push("Index<usize>"); }
+                if ilen != want.len() || mi != want.len() || llen != want.len() { bad.push("len / max_index"); }
+                if !want.is_empty() && !want.iter().any(|x| x.is_nan()) {
+                    let best = want.iter().cloned().fold(f32::NEG_INFINITY, f32::max);
+                    match (lam, lmax) { (Some(i), Some(v)) => { if i >= want.len() || !feq(want[i], best) || !feq(v, best) { bad.push("Scores::argmax / max"); } } _ => bad.push("Scores::argmax / max (None)") }
+                }
+                if !bad.is_empty() { fails.push(fail("scores_iter", format!("{:?} disagree(s) with the L-M+1 position scores", bad), case.clone())); }
+            }
+        }
+    }
     // REUSED score buffers: a buffer that still holds the scores of another (longer) sequence must end up with exactly the
     // scores of this one - none when L < M - and an empty row range must leave it empty
     {
@@ -227,6 +268,10 @@ pub fn sweep_c04(tier: &str, seed: u64) -> (usize, Vec<String>) {
                 let mut maxw = 0;
                 for &m in &hist { b.configure_wrap(m); maxw = maxw.max(m); if b.wrap() != maxw { f.push(fail("seq_configure_wrap", format!("{}: wrap {} after history {:?}", bname, b.wrap(), hist), case.clone())); }
                     check_striped(&format!("{}/32 reused+configure_wrap{:?}", bname, hist), b, &s, &case, &mut f); }
+                // a clone carries the same rows AND the same look-ahead row count
+                let c = b.clone();
+                if c.wrap() != b.wrap() || c.len() != b.len() || c.matrix() != b.matrix() { f.push(fail("seq_clone", format!("{}: clone has wrap {} / len {} (original {} / {}) or a different matrix", bname, c.wrap(), c.len(), b.wrap(), b.len()), case.clone())); }
+                check_striped(&format!("{}/32 clone after configure_wrap{:?}", bname, hist), &c, &s, &case, &mut f);
             }
             f
         }));
@@ -385,6 +430,23 @@ pub fn sweep_c07(tier: &str, seed: u64) -> (usize, Vec<String>) {
         for (nm, arm) in arms() { chk8!(nm, Pipeline::<Dna, Dispatch>::with_backend(arm)); }
         if fails.len() > 6 { return (n, fails); }
     } }
+    // the SSE2 pipeline is implemented for every multiple of 16 columns: 48 and 64 columns, a unique maximum planted in every column
+    {
+        use lightmotif::num::{U48, U64};
+        macro_rules! wide { ($c:ty, $cols:expr) => {{ for col in 0..$cols { for nrows in [1usize, 3] {
+            let mut sc = StripedScores::<f32, $c>::empty(); sc.resize(nrows, nrows * $cols);
+            for r in 0..nrows { for j in 0..$cols { sc.matrix_mut()[r][j] = -((r * 7 + j) as f32) - 1.0; } }
+            let pr = col % nrows; sc.matrix_mut()[pr][col] = 5.0;
+            n += 1;
+            let case = format!("f32 {} columns, {} rows, maximum planted at ({},{})", $cols, nrows, pr, col);
+            match catch_unwind(AssertUnwindSafe(|| { let p = Pipeline::<Dna, _>::sse2().unwrap(); (Maximum::<f32, $c>::max(&p, &sc), Maximum::<f32, $c>::argmax(&p, &sc)) })) {
+                Ok((m, am)) => { if m != Some(5.0) || am.map(|c| (c.row, c.col)) != Some((pr, col)) { fails.push(fail("pli_argmax", format!("sse2: max {:?} argmax {:?}", m, am.map(|c| (c.row, c.col))), case)); } }
+                Err(_) => fails.push(fail("pli_argmax", format!("sse2: panic at {}", panic_loc()), case)),
+            }
+            if fails.len() > 6 { return (n, fails); }
+        } } }}; }
+        wide!(U48, 48); wide!(U64, 64);
+    }
     // "when the wildcard column is -inf, float cells past the last valid position hold -inf, so the float maximum is the best valid
     // position's score": also for sequences produced by StripedSequence::sample (their padding cells must be wildcards too)
     {
@@ -767,7 +829,7 @@ pub fn sweep_c16(tier: &str, seed: u64) -> (usize, Vec<String>) {
         let r = catch_unwind(AssertUnwindSafe(|| -> Vec<String> {
             let mut f = Vec::new();
             let data = SamplerData::new(striped.clone());
-            let mk = |sd: u64| { let mut b = SamplerBuilder::new(&data); b.width(width); if zoops { b.mode(SamplerMode::Zoops).seeds(nseeds.min(nseq)).patience(1000); } b.sample(rand::rngs::StdRng::seed_from_u64(sd)) };
+            let mk = |sd: u64| { if !zoops && run % 6 == 2 { return lightmotif::sampler::Sampler::new(&data, width, rand::rngs::StdRng::seed_from_u64(sd)); } let mut b = SamplerBuilder::new(&data); b.width(width); if zoops { b.mode(SamplerMode::Zoops).seeds(nseeds.min(nseq)).patience(1000); } b.sample(rand::rngs::StdRng::seed_from_u64(sd)) };
             let mut s1 = mk(run as u64 + seed);
             let mut s2 = mk(run as u64 + seed);
             let check_state = |s: &lightmotif::sampler::Sampler<_, Dna, Vec<StripedSequence<Dna, U32>>, U32>, f: &mut Vec<String>, step: usize| {
